@@ -159,10 +159,48 @@ def check_C08(tier, t0):
     return core.finish("C08", tier, engine, agg, info, t0, extra, assumptions, rule)
 
 
+# ---------------------------------------------------------------------------------------------
+# C18
+# ---------------------------------------------------------------------------------------------
+
+
+def check_C18(tier, t0):
+    from . import engine_hist as eh
+
+    seed = core.verif_seed()
+    n = scale(20000 if tier == "quick" else 1500000)
+    bud = budget(150 if tier == "quick" else 1500)
+    agg, info = core.run_batch(eh.make_engine, {"seed": seed}, n, 250 if tier == "quick" else 2500, bud)
+    engine = eh.make_engine(seed)
+    c = agg.counters
+    extra = {
+        "faults_fired": dict((k, v) for k, v in c.items() if k.startswith("fault.")),
+        "client_faults": c.get("client_faults", 0),
+        "accessor_calls_after_a_client_fault": c.get("accessor_calls_after_a_client_fault", 0),
+        "fresh_twin_comparisons": c.get("fresh_twin_comparisons", 0),
+        "distinct_states": {"measure": "distinct history digests (op sequence + every result)", "count": len(agg.digests)},
+        "components": {"real": ["cvss.CVSS2/CVSS3/CVSS4 objects and all their public accessors", "json round trip"],
+                       "stub": ["the client (seeded operation history, injected mutations of held as_json() dicts)"]},
+    }
+    rule = ("seeded operation histories (<= 40 ops) of a client on a pool of 1-4 live objects built from accepted vectors "
+            "(same / permuted / other-version strings): accessor calls in any order, ==, hash, set membership, holding "
+            "as_json() dicts, and client faults on held dicts (clear, del, junk, junk_all, add, update, popitem); after "
+            "every op: no raise, equals the first result, equals a fresh twin, no aliasing with held dicts. Non-trivial = "
+            "distinct (op-kind sequence x vector class) with >= 1 client fault followed by an accessor call, or >= 2 "
+            "different accessors on one object.")
+    assumptions = [
+        "sequential histories only: concurrent accessor calls on one shared object are outside the statement (DESIGN 3.4)",
+        "object-internal attributes are not part of the oracle (a lazily filled private cache is allowed while results stay equal)",
+        "histories are built from vectors that are valid per /verif/spec; a rejected construction makes the history void, not a violation",
+    ]
+    return core.finish("C18", tier, engine, agg, info, t0, extra, assumptions, rule)
+
+
 CHECKS = {
     "C08": check_C08,
     "C16": check_C16,
     "C17": check_C17,
+    "C18": check_C18,
 }
 
 
@@ -177,6 +215,10 @@ def engine_for_trace(prop, trace):
         from . import engine_emit
 
         return engine_emit.make_engine(seed)
+    if name == "hist":
+        from . import engine_hist
+
+        return engine_hist.make_engine(seed)
     if name == "cli":
         from . import engine_cli
 
@@ -195,6 +237,10 @@ def engines_of(prop):
         from . import engine_emit
 
         return [(engine_emit.make_engine, {"seed": seed})]
+    if prop == "C18":
+        from . import engine_hist
+
+        return [(engine_hist.make_engine, {"seed": seed})]
     if prop == "C17":
         from . import engine_cli
 
